@@ -28,3 +28,45 @@ PLANS = {
     "C09": dict(level="exploration", jobs=seq_plan((2000, 0), (200000, 0)), assumptions=SEQ_ASSUME, min_evaluations=100),
     "C12": dict(level="exploration", jobs=seq_plan((4000, 16), (200000, 300)), assumptions=SEQ_ASSUME, min_evaluations=100),
 }
+
+
+def simple(engine, quick, thorough, extra=None, stripes_q=8, **kw):
+    def jobs(tier, cores):
+        n, n2 = quick if tier == "quick" else thorough
+        return striped(engine, n, n2, cores if tier == "thorough" else min(cores, stripes_q), extra, **kw)
+    return jobs
+
+
+def multi(*plans):
+    def jobs(tier, cores):
+        out = []
+        for p in plans:
+            out += p(tier, cores)
+        return out
+    return jobs
+
+
+KEY_TYPES = ["string", "int", "int8", "int16", "int32", "int64", "uint", "uint8", "uint16", "uint32", "uint64", "uintptr",
+             "float32", "float64", "complex64", "complex128", "bool", "*int", "unsafe.Pointer", "chan int", "[0]int", "[4]byte",
+             "[3]string", "struct{}", "padded", "strF", "nested", "ptrF", "ifaceF", "any", "fmt.Stringer"]
+
+
+def keys_jobs(tier, cores):
+    n, n2 = (200, 100) if tier == "quick" else (10000, 100)
+    return [dict(engine="keys", args=["-n", n, "-n2", n2, "-extra", t]) for t in KEY_TYPES]
+
+
+CONC_ASSUME = ["schedules are sampled (perturbation at every shim point, GOMAXPROCS 1..16), not enumerated",
+               "tickets taken at the client boundary from one atomic counter order the recorded calls",
+               "the sequential models of DESIGN.md appendix A are the specification"]
+
+PLANS.update({
+    "C02": dict(level="exploration", jobs=simple("linzcache", (4000, 0), (200000, 0)), assumptions=CONC_ASSUME, min_evaluations=100, inconclusive_tolerance=0.02),
+    "C03": dict(level="exploration", jobs=simple("linzmap", (6000, 0), (300000, 0)), assumptions=CONC_ASSUME, min_evaluations=100, inconclusive_tolerance=0.02),
+    "C04": dict(level="exploration", jobs=simple("linzmap", (6000, 0), (300000, 0)), assumptions=CONC_ASSUME, min_evaluations=100, inconclusive_tolerance=0.02),
+    "C05": dict(level="exploration", jobs=simple("atomic", (8000, 0), (300000, 0)), assumptions=CONC_ASSUME, min_evaluations=100),
+    "C06": dict(level="exploration", jobs=multi(seq_plan((3000, 0), (100000, 0)), simple("linzcache", (3000, 0), (150000, 0))), assumptions=SEQ_ASSUME + CONC_ASSUME, min_evaluations=100),
+    "C10": dict(level="exploration", jobs=keys_jobs, assumptions=["the builtin map[K]int is the reference for Go key equality", "NaN keys and unhashable dynamic values are outside the input domain"], min_evaluations=100),
+    "C11": dict(level="exploration", jobs=multi(simple("seqmap", (1200, 0), (60000, 0)), seq_plan((600, 6), (40000, 200))), assumptions=SEQ_ASSUME, min_evaluations=100),
+    "C12": dict(level="exploration", jobs=multi(seq_plan((3000, 12), (150000, 300)), simple("seqmap", (800, 0), (50000, 0))), assumptions=SEQ_ASSUME, min_evaluations=100),
+})
